@@ -12,6 +12,13 @@
       of any one pending operation on that name does (any subset of the pending
       operations, applied in order per entry; operations on different names are
       independent, so the two halves of a rename may be separated).
+    - Directories are OBJECTS, not path texts: every directory path has a
+      generation counter [sgen]; [Mkdir]/[Rmdir] at a path end the life of the
+      object that was there (its entries, durable or pending, die with it) and
+      a directory descriptor remembers the generation it was opened on, so an
+      [fsync] through a descriptor opened before the directory was removed and
+      re-created flushes nothing of the live directory.  (The durability of a
+      directory's own link in its parent is outside the model.)
     - [kill] is a process kill: every completed system call persists (the page
       cache survives), only the descriptor table is lost.
 
@@ -77,13 +84,15 @@ Inductive syscall : Type :=
 | Close (fd : N)
 | Rename (src dst : path)
 | Unlink (p : path)
+| Mkdir (d : N)                            (* mkdir: a NEW directory object at path [d] *)
+| Rmdir (d : N)                            (* rmdir / unlinkat(AT_REMOVEDIR): the object at [d] is gone *)
 | Ack (p : path).                          (* marker: the operation that published [p] reported success *)
 
 (** ** State *)
 
 Inductive fdesc : Type :=
 | FFile (ino off : N)
-| FDir (d : N).
+| FDir (d : N) (gen : N).                  (* directory path and the generation it was opened on *)
 
 Record fs : Type := mkFs {
   sino : N -> inode;
@@ -91,11 +100,12 @@ Record fs : Type := mkFs {
   sdur : path -> option N;
   spend : list (path * option N);
   sfd : N -> option fdesc;
-  snext : N
+  snext : N;
+  sgen : N -> N                            (* generation of the directory object at each directory path *)
 }.
 
 Definition fs_empty : fs :=
-  mkFs (fun _ => empty_inode) (fun _ => None) (fun _ => None) [] (fun _ => None) 1.
+  mkFs (fun _ => empty_inode) (fun _ => None) (fun _ => None) [] (fun _ => None) 1 (fun _ => 0).
 
 Definition updN {A} (f : N -> A) (k : N) (v : A) : N -> A :=
   fun x => if N.eqb x k then v else f x.
@@ -103,9 +113,9 @@ Definition updP {A} (f : path -> A) (k : path) (v : A) : path -> A :=
   fun x => if path_eqb x k then v else f x.
 
 Definition with_ino (s : fs) (ino : N) (i : inode) : fs :=
-  mkFs (updN (sino s) ino i) (svol s) (sdur s) (spend s) (sfd s) (snext s).
+  mkFs (updN (sino s) ino i) (svol s) (sdur s) (spend s) (sfd s) (snext s) (sgen s).
 Definition with_fd (s : fs) (fd : N) (d : option fdesc) : fs :=
-  mkFs (sino s) (svol s) (sdur s) (spend s) (updN (sfd s) fd d) (snext s).
+  mkFs (sino s) (svol s) (sdur s) (spend s) (updN (sfd s) fd d) (snext s) (sgen s).
 
 Definition ino_apply (i : inode) (w : wr) : inode := mkInode (ivol i ++ [w]) (idur i) true.
 Definition ino_sync (i : inode) : inode := mkInode (ivol i) (ivol i) false.
@@ -116,7 +126,15 @@ Definition sync_dir (s : fs) (d : N) : fs :=
   mkFs (sino s) (svol s)
        (fun p => if in_dir d p then svol s p else sdur s p)
        (filter (fun e => negb (in_dir d (fst e))) (spend s))
-       (sfd s) (snext s).
+       (sfd s) (snext s) (sgen s).
+
+(** the directory object at path [d] is replaced / removed: its entries die *)
+Definition new_dir (s : fs) (d : N) : fs :=
+  mkFs (sino s)
+       (fun p => if in_dir d p then None else svol s p)
+       (fun p => if in_dir d p then None else sdur s p)
+       (filter (fun e => negb (in_dir d (fst e))) (spend s))
+       (sfd s) (snext s) (updN (sgen s) d (sgen s d + 1)).
 
 Definition step (s : fs) (c : syscall) : fs :=
   match c with
@@ -128,14 +146,14 @@ Definition step (s : fs) (c : syscall) : fs :=
       | None =>
           let ino := snext s in
           mkFs (updN (sino s) ino empty_inode) (updP (svol s) p (Some ino)) (sdur s)
-               (spend s ++ [(p, Some ino)]) (updN (sfd s) fd (Some (FFile ino 0))) (ino + 1)
+               (spend s ++ [(p, Some ino)]) (updN (sfd s) fd (Some (FFile ino 0))) (ino + 1) (sgen s)
       end
   | OpenW fd p =>
       match svol s p with
       | Some ino => with_fd s fd (Some (FFile ino 0))
       | None => s
       end
-  | OpenDir fd d => with_fd s fd (Some (FDir d))
+  | OpenDir fd d => with_fd s fd (Some (FDir d (sgen s d)))
   | Write fd len =>
       match sfd s fd with
       | Some (FFile ino off) =>
@@ -155,7 +173,7 @@ Definition step (s : fs) (c : syscall) : fs :=
   | Fsync fd =>
       match sfd s fd with
       | Some (FFile ino _) => with_ino s ino (ino_sync (sino s ino))
-      | Some (FDir d) => sync_dir s d
+      | Some (FDir d g) => if N.eqb g (sgen s d) then sync_dir s d else s
       | None => s
       end
   | Close fd => with_fd s fd None
@@ -163,15 +181,17 @@ Definition step (s : fs) (c : syscall) : fs :=
       match svol s src with
       | Some ino =>
           mkFs (sino s) (updP (updP (svol s) src None) dst (Some ino)) (sdur s)
-               (spend s ++ [(src, None); (dst, Some ino)]) (sfd s) (snext s)
+               (spend s ++ [(src, None); (dst, Some ino)]) (sfd s) (snext s) (sgen s)
       | None => s
       end
   | Unlink p =>
       match svol s p with
       | Some _ =>
-          mkFs (sino s) (updP (svol s) p None) (sdur s) (spend s ++ [(p, None)]) (sfd s) (snext s)
+          mkFs (sino s) (updP (svol s) p None) (sdur s) (spend s ++ [(p, None)]) (sfd s) (snext s) (sgen s)
       | None => s
       end
+  | Mkdir d => new_dir s d
+  | Rmdir d => new_dir s d
   | Ack _ => s
   end.
 
@@ -185,12 +205,13 @@ Definition crash (s s' : fs) : Prop :=
   spend s' = [] /\
   (forall fd, sfd s' fd = None) /\
   (forall ino, idirty (sino s ino) = false -> ivol (sino s' ino) = idur (sino s ino)) /\
-  (forall ino, idur (sino s' ino) = ivol (sino s' ino) /\ idirty (sino s' ino) = false).
+  (forall ino, idur (sino s' ino) = ivol (sino s' ino) /\ idirty (sino s' ino) = false) /\
+  (forall d, sgen s' d = sgen s d).
 
 (** ** Process kill: completed system calls persist *)
 
 Definition kill (s : fs) : fs :=
-  mkFs (sino s) (svol s) (sdur s) (spend s) (fun _ => None) (snext s).
+  mkFs (sino s) (svol s) (sdur s) (spend s) (fun _ => None) (snext s) (sgen s).
 
 (** what a reader finds under a name *)
 Definition read (s : fs) (p : path) : option content :=
